@@ -111,7 +111,7 @@ Definition consolidate_grades (gs : list Q) (n_expect : nat) : Q :=
   let n_extra := (Z.of_nat (length gs) - Z.of_nat n_expect)%Z in
   let gs' :=
     if (0 <? n_extra)%Z then gs ++ repeat (-(1)) (Z.to_nat n_extra)
-    else if (n_extra <? 0)%Z then gs ++ repeat 0 (Z.to_nat (- n_extra))
+    else if (n_extra <? 0)%Z then gs ++ repeat 0 (Z.to_nat (Z.abs n_extra))
     else gs in
   Qmax 0 (qsum gs' / inject_Z (Z.of_nat n_expect)).
 
